@@ -2,7 +2,7 @@ SPECIFICATION Spec
 CONSTANTS
   BUF = 32
   MaxLines = 4
-  LimitN = 5
+  LimitN = 3
   MaxFds = 0
   Guided = TRUE
   TSet = {1, 2, 3, 4, 5, 6, 7, 8, 9, 10, 11, 12, 13, 14, 15, 16, 17, 18, 19, 20, 21, 22, 23, 24}
